@@ -24,6 +24,7 @@ import LianVerif.Drv.GirExec
 import LianVerif.Drv.LowerPy
 import LianVerif.Drv.Frames
 import LianVerif.Drv.Sched
+import LianVerif.Drv.Taint
 
 open Lean LianVerif.Drv
 
@@ -56,6 +57,8 @@ def dispatch (j : Json) : Except String Json := do
   | "modelexec" => LianVerif.Drv.LowerPy.handleModelExec j
   | "frames" => LianVerif.Drv.Frames.handle j
   | "sched" => LianVerif.Drv.Sched.handle j
+  | "taint" => LianVerif.Drv.Taint.handle j
+  | "taintrules" => LianVerif.Drv.Taint.handleRules j
   | _ => throw s!"unknown model {m}"
 
 partial def loop (hin hout : IO.FS.Stream) : IO Unit := do
